@@ -95,6 +95,9 @@ func Generate(r *sim.Rng, prop, tier string, idx int) *sim.Case {
 	if r.Chance(1, 5) {
 		c.Knobs["other_lockers"] = int64(1 + r.Intn(20)) // lockers of other names were requested first
 	}
+	if r.Chance(1, 6) {
+		c.Knobs["ctx_cause"] = int64(1 + r.Intn(4)) // contexts end with an error of the caller's own
+	}
 	if r.Chance(1, 4) {
 		c.Knobs["ctx_blind"] = 1 // a storage that does not look at the context of its short calls
 	}
@@ -108,7 +111,9 @@ func Generate(r *sim.Rng, prop, tier string, idx int) *sim.Case {
 			hangs = true // a hanging call occupies a timer worker: the second lock's lease would not be kept either
 		}
 	}
-	if c.Mode != "enum" && c.Mode != "orphan" && !hangs && c.Knobs["noise_lock"] == 0 && r.Chance(1, 6) {
+	// (renewal faults are planned by the ordinal of the renewal call: a second lock's renewals
+	// would shift a plan that counts on consecutive failures of "L")
+	if c.Mode != "enum" && c.Mode != "orphan" && !hangs && c.Knobs["noise_lock"] == 0 && c.Knobs["streak_across_tenures"] == 0 && r.Chance(1, 6) {
 		// the providers also serve a second lock with a related name
 		lease := time.Duration(c.Knobs["lease_ns"])
 		c.Knobs["noise_lock"] = int64(1 + r.Intn(6))
@@ -495,6 +500,22 @@ func genC05(r *sim.Rng, c *sim.Case, tier string, idx int) {
 				c.Knobs["bg_timers"] = int64(2 + r.Intn(2))
 				c.Knobs["bg_period_ns"] = int64(sim.Pick(r, lease/16, lease/7, lease/3))
 			}
+		}
+		if len(c.Faults) == 0 && r.Chance(1, 4) {
+			// a tenure that ends in the middle of a streak of m failed renewals, followed at once
+			// by a tenure of the same Locker whose first n renewals fail too: whatever the first
+			// tenure's trouble left behind, n <= 3 transient failures are survivable (attempts at
+			// T/2, 5T/8, 6T/8, 7T/8)
+			m, n := 1+r.Intn(3), 1+r.Intn(3)
+			h1 := 3*lease/2 + time.Duration(m-1)*lease/8 + lease/16
+			t0.Ops = []sim.Op{
+				{K: "lockctx", E: -1, D: int64(h1)},
+				{K: "lockctx", E: -1, D: int64(2*lease + lease/2 + time.Duration(r.I64n(int64(lease))))},
+			}
+			for o := 3; o < 3+m+n; o++ {
+				c.Faults = append(c.Faults, sim.Fault{Seam: "renew", Kind: "req_lost", Ord: int64(o)})
+			}
+			c.Knobs["streak_across_tenures"] = int64(10*m + n)
 		}
 		c.Tasks = append(c.Tasks, t0)
 		c.Knobs["locker_t0"] = 0
